@@ -284,7 +284,9 @@ def run_case(seed, idx, tier, rec):
             node = node['subs'][0]
     unusable = [c for c, n in walk(tree) if c and n['title'] in UNUSABLE]
     too_deep = depth_of(tree) > 5
-    with_plots = tier == 'thorough' and idx % 8 == 0
+    with_plots = (tier == 'thorough' and idx % 8 == 0) or idx % 40 == 0
+    # the same Rst object formats another report before this one is written
+    sequence = idx % 4 == 0
     rep = FullRepresenter() if with_plots else TableRepresenter()
     rec.count('evaluations')
     work = tempfile.mkdtemp(prefix='vf-c20-', dir=core.fast_tmp())
@@ -298,8 +300,16 @@ def run_case(seed, idx, tier, rec):
         raised = None
         try:
             report = build_report(tree)
-            fmt = Rst(Representation(rep, Verbosity.FULL_DETAILS)) \
-                .format_report(report=report, author='vf', version='0')
+            rst = Rst(Representation(rep, Verbosity.FULL_DETAILS))
+            fmt = rst.format_report(report=report, author='vf', version='0')
+            if sequence and not unusable and not too_deep:
+                ocnt = Counter()
+                ocnt.num = 5000
+                other = gen_tree(rng, ocnt, 0, 2, None)
+                fix_titles(other)
+                rst.format_report(report=build_report(other), author='vf',
+                                  version='0')
+                rec.count('reports_formatted_in_between')
             fmt.write(target)
         except Exception as err:  # pylint: disable=broad-except
             raised = err
